@@ -219,6 +219,90 @@ pub mod locks {
     }
 }
 
+/// Drop-in replacements for `parking_lot::{RwLock, Mutex, RwLockWriteGuard}` in the read cache: same blocking
+/// behaviour, plus a scheduling point in front of every acquisition of a WATCHED lock (`cache_rd` shared,
+/// `cache_wr` exclusive, `cache_evlock` for the eviction mutex).  The harness names the watched bucket locks by
+/// address: an eviction pass visits all 16384 buckets, only the ones under test may stop the thread.
+pub mod cache_locks {
+    use std::ops::{Deref, DerefMut};
+    use std::sync::atomic::{AtomicUsize, Ordering};
+
+    static WATCH: [AtomicUsize; 4] = [AtomicUsize::new(0), AtomicUsize::new(0), AtomicUsize::new(0), AtomicUsize::new(0)];
+    static WATCH_MUTEX: AtomicUsize = AtomicUsize::new(0);
+
+    /// Up to four lock addresses; an empty slice switches the points off.
+    pub fn watch(addrs: &[usize], eviction_mutex: bool) {
+        for (i, slot) in WATCH.iter().enumerate() {
+            slot.store(addrs.get(i).copied().unwrap_or(0), Ordering::SeqCst);
+        }
+        WATCH_MUTEX.store(eviction_mutex as usize, Ordering::SeqCst);
+    }
+
+    fn watched(addr: usize) -> bool {
+        WATCH.iter().any(|w| { let a = w.load(Ordering::Relaxed); a != 0 && a == addr })
+    }
+
+    pub struct RwLock<T>(parking_lot::RwLock<T>);
+    pub struct RwLockReadGuard<'a, T>(parking_lot::RwLockReadGuard<'a, T>);
+    pub struct RwLockWriteGuard<'a, T>(parking_lot::RwLockWriteGuard<'a, T>);
+
+    impl<T> RwLock<T> {
+        pub fn new(value: T) -> Self {
+            RwLock(parking_lot::RwLock::new(value))
+        }
+        pub fn read(&self) -> RwLockReadGuard<'_, T> {
+            if watched(self as *const Self as usize) {
+                super::sched("cache_rd");
+            }
+            RwLockReadGuard(self.0.read())
+        }
+        pub fn write(&self) -> RwLockWriteGuard<'_, T> {
+            if watched(self as *const Self as usize) {
+                super::sched("cache_wr");
+            }
+            RwLockWriteGuard(self.0.write())
+        }
+    }
+
+    impl<T> Deref for RwLockReadGuard<'_, T> {
+        type Target = T;
+        fn deref(&self) -> &T {
+            &self.0
+        }
+    }
+    impl<T> Deref for RwLockWriteGuard<'_, T> {
+        type Target = T;
+        fn deref(&self) -> &T {
+            &self.0
+        }
+    }
+    impl<T> DerefMut for RwLockWriteGuard<'_, T> {
+        fn deref_mut(&mut self) -> &mut T {
+            &mut self.0
+        }
+    }
+
+    pub struct Mutex<T>(parking_lot::Mutex<T>);
+
+    impl<T> Mutex<T> {
+        pub fn new(value: T) -> Self {
+            Mutex(parking_lot::Mutex::new(value))
+        }
+        pub fn lock(&self) -> parking_lot::MutexGuard<'_, T> {
+            if WATCH_MUTEX.load(Ordering::Relaxed) != 0 {
+                super::sched("cache_evlock");
+            }
+            self.0.lock()
+        }
+        pub fn try_lock(&self) -> Option<parking_lot::MutexGuard<'_, T>> {
+            if WATCH_MUTEX.load(Ordering::Relaxed) != 0 {
+                super::sched("cache_evlock");
+            }
+            self.0.try_lock()
+        }
+    }
+}
+
 /// Drop-in replacement for `std::sync::atomic::AtomicU64` in the version clock: same operations
 /// (everything not listed here goes to the real atomic through `Deref`), plus a scheduling point
 /// right after each `load`, i.e. inside the window between reading a clock shard and the
